@@ -179,6 +179,7 @@ func customFunc(n *Node) func(t *sp.Task) {
 			pkv = append(pkv, p.Name+"="+t.Param(p.Name))
 		}
 		o := s.Shell.CustomStart(node.Name, inPaths, pkv)
+		s.Shell.CustomBarrier(o, node.Barrier)
 		for _, in := range node.Ins {
 			ip := t.InIP(in.Name)
 			if _, err := s.FS.GoStat(ip.Path()); err != nil {
